@@ -182,12 +182,14 @@ PROPS = {
   'timeout_quick': 900,
  },
  'C05': {
-  'level_text': 'Coq theorems (closed under the global context) on the Reader cursor model with the visible input prefix a parameter of every call: a row call that runs out of input changes nothing; finish() is resumable; a '
-                'whole-frame call that runs out of input has written a prefix of the rows and, repeated on any longer input, gives exactly the outcome of one call on that input (rows d1 ++ d2). Byte-level accumulation '
-                'of partial fields/bodies is C04. Not proved: composition to bytes, next_frame_info, absence of format errors on prefixes (inflater contract) - decided by the harness on every run.',
+  'level_text': 'Coq theorems (closed under the global context). Bytes (stream machine, premise: prefix-determinacy contract of the external inflater): a stream that decodes without an error reports NO error on any of its prefixes - the run '
+                'ends for lack of input, ready to go on - and however the input then grows (any list of increments) the observation (events, image bytes, metadata, end) is that of decoding the complete input in one go '
+                '(corollaries of the whole-stream delivery theorem of C04). Reader cursor model with the visible input prefix a parameter of every call: a row call that runs out of input changes nothing; finish() is resumable; a '
+                'whole-frame call that runs out of input has written a prefix of the rows and, repeated on any longer input, gives exactly the outcome of one call on that input (rows d1 ++ d2). Not proved: the link between the two '
+                'levels (Reader rows over the image bytes of the machine), next_frame_info - decided by the harness on every run.',
   'level_note': '''Trusted: Coq kernel; hand model of the Reader cursor (coq/Model/Reader.v) tied by differential execution of op sequences (C13 harness emits the abstract trace of every sequence and the extracted model must reproduce it); fdeflate prefix-stability by contract.''',
-  'gen_items': [],
-  'model_name': 'Model/Reader.v step with visibility',
+  'gen_items': ['CHUNK_BUFFER_SIZE', 'signature', 'chunk.consts'],
+  'model_name': 'Model/Reader.v step with visibility; Model/Stream.v + StreamRun.v feed on prefixes',
   'rule': 'cases = generated valid PNG/APNG files (incl. Up/Avg/Paeth rows, multi-IDAT, a 40 KB text chunk after the image data) x truncation points (all for files < 260 B, every 3rd otherwise; all thorough) x growth '
           'schedules {+1, random, all-at-once} x the retried call in {next_frame (same buffer), next_row, read_row, next_interlaced_row, next_frame_info, finish} (+ read_header_info) x two piece schedules: the final outcome '
           'must equal the one-shot outcome; plus every prefix alone: no format error, no frame that differs from the complete file\'s. distinct = (path, cut mod 97, length mod 13).',
